@@ -592,6 +592,9 @@ class Hypergraph:
             warn(f"uid {idx} already exists, cannot add edge {members}")
             return
 
+        if None in members:
+            raise XGIError("None cannot be a node or edge")
+
         uid = next(self._edge_uid) if idx is None else idx
 
         self._edge[uid] = set()
@@ -714,9 +717,12 @@ class Hypergraph:
                     warn(f"uid {idx} already exists, cannot add edge {members}.")
                     continue
                 try:
-                    self._edge[idx] = set(members)
+                    member_set = set(members)
                 except TypeError as e:
                     raise XGIError("Invalid ebunch format") from e
+                if None in member_set:
+                    raise XGIError("None cannot be a node or edge")
+                self._edge[idx] = member_set
                 for n in members:
                     if n not in self._node:
                         self._node[n] = set()
@@ -774,9 +780,12 @@ class Hypergraph:
                 warn(f"uid {idx} already exists, cannot add edge {members}.")
             else:
                 try:
-                    self._edge[idx] = set(members)
+                    member_set = set(members)
                 except TypeError as e:
                     raise XGIError("Invalid ebunch format") from e
+                if None in member_set:
+                    raise XGIError("None cannot be a node or edge")
+                self._edge[idx] = member_set
 
                 for n in members:
                     if n not in self._node:
